@@ -1,2 +1,265 @@
-//! Harnesses for property C45 (see /verif/properties.jsonl).
-use crate::stubs;
+//! C45 CSPTP servers answer only requests, with correct echoes.
+//!
+//! The private `handle_packet` is polled to completion with a recording in-memory socket. All
+//! checks read the raw bytes handed to `send_event` / `send_general` at the offsets of the
+//! IEEE 1588 header and of the CSPTP response TLV (type 0xff01: reqIngressTimestamp(10) +
+//! reqCorrectionField(8)).
+use crate::common::*;
+use core::future::Future;
+use core::task::{Context, Poll};
+use ntp_proto::{NtpLeapIndicator, TimeSnapshot};
+use statime_csptp::verif::{manager as mh, platform as ph, server as vh};
+use statime_csptp::{CsptpConfig, CsptpManager, CsptpState, InternalState, ServerRecvResult, ServerSocket};
+use statime_wire::{ClockAccuracy, ClockIdentity, ClockQuality, Timestamp};
+use std::cell::RefCell;
+
+const CAP: usize = 128;
+
+struct Rec {
+    ev_calls: u8,
+    ev: [u8; CAP],
+    ev_len: usize,
+    ev_from: u8,
+    ev_to: u8,
+    gen_calls: u8,
+    gn: [u8; CAP],
+    gen_len: usize,
+    gen_from: u8,
+    gen_to: u8,
+    // scripted results
+    ev_result: Result<Timestamp, ()>,
+    gen_result: Result<(), ()>,
+}
+
+struct RecSock<'a>(&'a RefCell<Rec>);
+
+fn copy_into(dst: &mut [u8; CAP], src: &[u8]) -> usize {
+    dst[..src.len()].copy_from_slice(src);
+    src.len()
+}
+
+impl ServerSocket for RecSock<'_> {
+    type Addr = u8;
+    type Error = ();
+    fn recv(&mut self, _buf: &mut [u8]) -> impl Future<Output = Result<ServerRecvResult<u8>, ()>> {
+        core::future::pending()
+    }
+    fn send_event(&mut self, buf: &[u8], from: u8, to: u8) -> impl Future<Output = Result<Timestamp, ()>> {
+        let mut r = self.0.borrow_mut();
+        r.ev_calls += 1;
+        assert!(buf.len() <= CAP, "response fits the recording buffer");
+        r.ev_len = copy_into(&mut r.ev, buf);
+        r.ev_from = from;
+        r.ev_to = to;
+        core::future::ready(r.ev_result)
+    }
+    fn send_general(&mut self, buf: &[u8], from: u8, to: u8) -> impl Future<Output = Result<(), ()>> {
+        let mut r = self.0.borrow_mut();
+        r.gen_calls += 1;
+        assert!(buf.len() <= CAP, "follow-up fits the recording buffer");
+        r.gen_len = copy_into(&mut r.gn, buf);
+        r.gen_from = from;
+        r.gen_to = to;
+        core::future::ready(r.gen_result)
+    }
+}
+
+struct Env {
+    state: CsptpState,
+    leap: NtpLeapIndicator,
+    rx: Timestamp,
+    remote: u8,
+    local: u8,
+    ev_result: Result<Timestamp, ()>,
+    gen_result: Result<(), ()>,
+}
+
+fn any_env() -> Env {
+    let leap = match kani::any::<u8>() {
+        0 => NtpLeapIndicator::NoWarning,
+        1 => NtpLeapIndicator::Leap61,
+        2 => NtpLeapIndicator::Leap59,
+        _ => NtpLeapIndicator::Unknown,
+    };
+    let state = CsptpState {
+        grandmaster_identity: ClockIdentity(kani::any()),
+        grandmaster_priority_1: kani::any(),
+        grandmaster_priority_2: kani::any(),
+        grandmaster_clock_quality: ClockQuality {
+            clock_class: kani::any(),
+            clock_accuracy: ClockAccuracy::from_primitive(kani::any()),
+            offset_scaled_log_variance: kani::any(),
+        },
+        steps_removed: kani::any(),
+        ptp_timescale: kani::any(),
+        time_traceable: kani::any(),
+        frequency_traceable: kani::any(),
+    };
+    let rx = any_timestamp();
+    let tx = any_timestamp();
+    let ev_ok: bool = kani::any();
+    let gen_ok: bool = kani::any();
+    Env {
+        state,
+        leap,
+        rx,
+        remote: kani::any(),
+        local: kani::any(),
+        ev_result: if ev_ok { Ok(tx) } else { Err(()) },
+        gen_result: if gen_ok { Ok(()) } else { Err(()) },
+    }
+}
+
+/// Runs `handle_packet` on `packet` and returns what the socket saw.
+fn run(env: &Env, packet: &[u8]) -> Rec {
+    let snapshot = TimeSnapshot { leap_indicator: env.leap, ..TimeSnapshot::default() };
+    let manager: CsptpManager<RefCell<InternalState>> =
+        mh::manager_from_parts(CsptpConfig::default(), ph::internal_state_from_parts(env.state, snapshot, None));
+    let rec = RefCell::new(Rec {
+        ev_calls: 0,
+        ev: [0; CAP],
+        ev_len: 0,
+        ev_from: 0,
+        ev_to: 0,
+        gen_calls: 0,
+        gn: [0; CAP],
+        gen_len: 0,
+        gen_from: 0,
+        gen_to: 0,
+        ev_result: env.ev_result,
+        gen_result: env.gen_result,
+    });
+    {
+        let mut sock = RecSock(&rec);
+        let fut = vh::handle_packet_hook(&mut sock, &manager, packet, env.remote, env.local, env.rx);
+        let mut fut = core::pin::pin!(fut);
+        let mut cx = Context::from_waker(std::task::Waker::noop());
+        let p = fut.as_mut().poll(&mut cx);
+        assert!(p.is_ready(), "handling one datagram completes without waiting when the socket does");
+    }
+    rec.into_inner()
+}
+
+/// Echo checks shared by both harnesses: `req` is the request datagram (already known to have been answered).
+fn check_answer(env: &Env, req: &[u8], rec: &Rec, status_requested: bool) {
+    assert!(rec.ev_calls == 1, "exactly one response on the event socket");
+    let a = &rec.ev;
+    let want_len = 34 + 10 + 22 + if status_requested { 22 } else { 0 };
+    assert!(rec.ev_len == want_len && be16(a, 2) as usize == want_len, "response length: Sync + response TLV (+ status TLV when requested)");
+    assert!(a[0] == 0x30 && a[5] == 0 && a[1] & 0x0f == 2, "response is a PTPv2 Sync with sdoId 0x300");
+    assert!(a[4] == req[4], "response echoes the request's domain");
+    assert!(be16(a, 30) == be16(req, 30), "response echoes the request's sequence id");
+    assert!(a[6] & 0x02 != 0, "response announces a follow-up (two-step)");
+    assert!(a[6] & 0x04 != 0, "response is unicast");
+    assert!((a[7] & 1 != 0) == (env.leap == NtpLeapIndicator::Leap61) && (a[7] & 2 != 0) == (env.leap == NtpLeapIndicator::Leap59), "leap flags follow the server's leap indicator");
+    assert!(be16(a, 44) == 0xff01 && be16(a, 46) == 18, "first TLV is the CSPTP response TLV");
+    assert!(be48(a, 48) == env.rx.seconds() && be32(a, 54) == env.rx.nanos(), "reqIngressTimestamp = reception time of the request");
+    assert!(be64(a, 58) == be64(req, 8), "reqCorrectionField = correctionField of the request");
+    assert!(rec.ev_from == env.local && rec.ev_to == env.remote, "response goes from the address the request was sent to, to its sender");
+    if status_requested {
+        assert!(be16(a, 66) == 0xf002 && be16(a, 68) == 18, "second TLV is the CSPTP status TLV");
+        assert!(a[70] == env.state.grandmaster_priority_1 && a[75] == env.state.grandmaster_priority_2, "status TLV priorities");
+        assert!(be16(a, 76) == env.state.steps_removed, "status TLV stepsRemoved");
+        let mut k = 0;
+        while k < 8 {
+            assert!(a[80 + k] == env.state.grandmaster_identity.0[k], "status TLV grandmaster identity");
+            k += 1;
+        }
+    }
+    match env.ev_result {
+        Ok(tx) => {
+            assert!(rec.gen_calls == 1, "a follow-up is sent on the general socket after a successful send");
+            let f = &rec.gn;
+            assert!(rec.gen_len == 44 && be16(f, 2) == 44, "follow-up has no TLVs");
+            assert!(f[0] == 0x38 && f[5] == 0 && f[1] & 0x0f == 2, "follow-up is a PTPv2 Follow_Up with sdoId 0x300");
+            assert!(f[4] == req[4] && be16(f, 30) == be16(req, 30), "follow-up echoes domain and sequence id");
+            assert!(be48(f, 34) == tx.seconds() && be32(f, 40) == tx.nanos(), "preciseOriginTimestamp = send time reported by the event socket");
+            assert!(rec.gen_from == env.local && rec.gen_to == env.remote, "follow-up addresses");
+        }
+        Err(()) => assert!(rec.gen_calls == 0, "no follow-up without a send timestamp"),
+    }
+}
+
+/// Template: Sync + CSPTP request TLV (4 value bytes), 52 bytes; type/length fields concrete, rest symbolic.
+#[kani::proof]
+#[kani::unwind(16)]
+fn c45_handle() {
+    let mut req: [u8; 52] = kani::any();
+    let env = any_env();
+    req[0] &= 0xf0; // Sync
+    put16(&mut req, 2, 52);
+    put16(&mut req, 44, 0xff00);
+    put16(&mut req, 46, 4);
+    // the parser and Timestamp::new disagree at nanoseconds == 10^9 exactly; excluded (see report)
+    kani::assume(be32(&req, 40) != 1_000_000_000);
+    let well_formed = (req[0] >> 4) == 3 && req[5] == 0 && req[1] & 0x0f == 2 && be32(&req, 40) < 1_000_000_000;
+
+    let rec = run(&env, &req);
+    if !well_formed {
+        assert!(rec.ev_calls == 0 && rec.gen_calls == 0, "nothing is sent for a datagram that is not a CSPTP request");
+        kani::cover!(req[5] != 0, "foreign sdoId ignored");
+        kani::cover!(req[1] & 0x0f != 2, "foreign PTP version ignored");
+        return;
+    }
+    check_answer(&env, &req, &rec, req[48] & 1 != 0);
+    kani::cover!(req[48] & 1 != 0 && env.ev_result.is_ok(), "answered with status TLV and follow-up");
+    kani::cover!(req[48] & 1 == 0, "answered without status TLV");
+    kani::cover!(env.ev_result.is_err(), "send failed: no follow-up");
+    kani::cover!(be64(&req, 8) != 0 && env.leap == NtpLeapIndicator::Leap59, "non-zero correction echoed, leap59");
+}
+
+/// Raw-byte scan: does the datagram contain, inside messageLength, a CSPTP request TLV?
+fn looks_like_request<const N: usize>(b: &[u8; N], n: usize) -> bool {
+    if n < 44 {
+        return false;
+    }
+    let ml = be16(b, 2) as usize;
+    if b[0] != 0x30 || b[5] != 0 || b[1] & 0x0f != 2 || ml > n || ml < 44 {
+        return false;
+    }
+    let mut off = 44;
+    let mut found = false;
+    let mut guard = 0;
+    while guard < N / 4 {
+        if off + 4 <= ml {
+            let len = be16(b, off + 2) as usize;
+            if be16(b, off) == 0xff00 && len >= 1 && off + 4 + len <= ml {
+                found = true;
+            }
+            off += 4 + len;
+        }
+        guard += 1;
+    }
+    found
+}
+
+fn handle_any<const N: usize>() {
+    let pkt: [u8; N] = kani::any();
+    let n: usize = kani::any();
+    kani::assume(n <= N);
+    let env = any_env();
+    let rec = run(&env, &pkt[..n]);
+    if rec.ev_calls == 0 {
+        assert!(rec.gen_calls == 0, "no follow-up without a response");
+        kani::cover!(n >= 52 && pkt[0] == 0x30, "long Sync-typed datagram not answered");
+        return;
+    }
+    assert!(looks_like_request(&pkt, n), "something was sent => the datagram is a PTPv2/CSPTP Sync carrying a request TLV");
+    // status flag: first value byte of the request TLV; with N <= 56 the request TLV can only sit at offset 44 or 48
+    let tlv_at = if be16(&pkt, 44) == 0xff00 { 44 } else { 48 };
+    check_answer(&env, &pkt, &rec, pkt[tlv_at + 4] & 1 != 0);
+    kani::cover!(true, "an arbitrary datagram was answered");
+    kani::cover!(n > be16(&pkt, 2) as usize, "answered a request with trailing padding");
+}
+
+#[kani::proof]
+#[kani::unwind(16)]
+fn c45_handle_any() {
+    handle_any::<52>();
+}
+
+#[kani::proof]
+#[kani::unwind(16)]
+fn c45_handle_any_56() {
+    handle_any::<56>();
+}
